@@ -235,7 +235,7 @@ static int dispatch(cmd_t * c) {
 	if (!strcmp(c->name, "logallocs")) { g_log_allocs = (int)arg_long(&c->argv[0]); return 1; }
 	if (!strcmp(c->name, "timeout")) { g_timeout = (int)arg_long(&c->argv[0]); return 1; }
 	return scen_dstring(c) || scen_pool(c) || scen_convert(c) || scen_meta(c) || scen_critic(c) || scen_tree(c)
-	       || scen_transclude(c) || scen_opml(c) || scen_chain(c) || scen_pairs(c) || scen_cost(c) || scen_threads(c);
+	       || scen_transclude(c) || scen_opml(c) || scen_chain(c) || scen_pairs(c) || scen_ac(c) || scen_cost(c) || scen_threads(c);
 }
 
 int main(int argc, char ** argv) {
